@@ -102,7 +102,7 @@ def run(ctx):
         from .. import ispace, taint
         ni = ispace.rule(ctx, crate, "R05-3", sorted(p for p, b in crate.bodies.items() if b.kind in ("fn", "closure")),
                          panicking_only=True)
-        ctx.floor("R05-3", crate, "index-space obligations", ni, 2 if crate.kind == "bin" else 0)
+        ctx.floor("R05-3", crate, "index-space obligations", ni, 1 if crate.kind == "bin" else 0)
         try:
             from .. import pest as _pest
             from .c19 import num_syntax_rule
